@@ -469,8 +469,9 @@ def run(chk):
             stats["docs_malformed"] += 1
             continue
         ps = list(all_paths(truth))
-        if len(ps) > 14:
-            ps = [()] + rng.sample(ps[1:], 13)
+        leaves = [p for p in ps if not isinstance(get_path(truth, p)[1], (dict, list))]
+        inner = [p for p in ps if p and isinstance(get_path(truth, p)[1], (dict, list))]
+        ps = [()] + (rng.sample(leaves, 10) if len(leaves) > 10 else leaves) + (rng.sample(inner, 4) if len(inner) > 4 else inner)
         # a few paths that do not exist
         if isinstance(truth, dict) and truth and rng.random() < 0.5:
             k = rng.choice(list(truth))
